@@ -63,7 +63,11 @@ def build_domain(decl):
                       # two quantified effects over different types in one action
                       [{"name": f"sweep2-{t}", "params": [], "pre": ["and"],
                         "eff": ["and", ["forall", ["?z", "-", t], ["when", ["and"], ["mark", "?z"]]],
-                                ["forall", ["?w", "-", nxt(names, t)], ["when", ["and"], ["mark2", "?w"]]]]} for t in names]}
+                                ["forall", ["?w", "-", nxt(names, t)], ["when", ["and"], ["mark2", "?w"]]]]} for t in names] +
+                      # the quantified variable is named like a parameter of another type: inside the effect the name
+                      # is the quantified variable, which ranges over its own type
+                      [{"name": f"shadow-{t}", "params": [["?z", nxt(names, t)]], "pre": ["and"],
+                        "eff": ["and", ["forall", ["?z", "-", t], ["when", ["and"], ["mark", "?z"]]]]} for t in names]}
     objects = [[f"o-{t}", t] for t in names] + [["o-object", "object"]]
     return dom, objects, T, names
 
@@ -224,6 +228,20 @@ def check_case(case):
         if set(got[0]) != exp:
             res.bad("C06/forall-effect-pair/range", {**info, "quantified": [t, nxt(names, t)], "missing": sorted(exp - set(got[0])),
                                                      "extra": sorted(set(got[0]) - exp)})
+            break
+    for t in names:
+        def run3():
+            op = Operator(domain.actions[f"shadow-{t}"], domain, [f"o-{nxt(names, t)}"], objs)
+            return read_lib_state(op.apply(State(defaultdict(set), {}, is_init=True)))
+        oka, got = lib_call(run3)
+        n_eval += 1
+        exp = {("mark", o) for o in world.of_type(t)}
+        if not oka:
+            res.bad(f"C06/forall-effect-shadowing/exception:{got.key}", {**info, "quantified": t, "parameter": nxt(names, t), "error": repr(got)})
+            break
+        if set(got[0]) != exp:
+            res.bad("C06/forall-effect-shadowing/range", {**info, "quantified": t, "parameter": nxt(names, t),
+                                                          "missing": sorted(exp - set(got[0])), "extra": sorted(set(got[0]) - exp)})
             break
     # (5) the applications above grounded operators: the domain must still accept what it accepted before
     #     (every object is an object), also when the root-typed object is declared as a trailing bare name
